@@ -12,7 +12,8 @@ def run(ctx):
          ('d1.h4.n3.spread', D(1, 4, 3, 1), [-3, -1, 1, -1, 1, 0], 240, 'initially one particle per diagonal leaf, then every displacement of all three (leaves empty/appear, group count changes)'),
          ('d1.h4.n3.stacked', D(1, 4, 3, 1), [-3, -1, 1, -1, 2, 0], 240, 'initially all particles in one leaf, then every displacement'),
          ('d2.h3.n2.spread', D(2, 3, 2, 1), [-2, -1, 1, -1, 1, 0], 300, ''),
-         ('d3.h2.n2', D(3, 2, 2, 1, NRHS=2), [-2, -1, 1, -1, 0, 0], 200, 'two result values')]
+         ('d3.h2.n2', D(3, 2, 2, 1, NRHS=2), [-2, -1, 1, -1, 0, 0], 200, 'two result values'),
+         ('d3.h21.n2.deep', D(3, 21, 2, 3), [2, 0, 1, -1, 0, 0], 120, 'deep sparse tree (62-bit indices): moves, rebuild, execute')]
     if not q:
         T += [('d1.h3.n2.2cycles', D(1, 3, 2, 1), [-3, -1, 2, -1, 0, 0], 1200, 'two move/rebuild/execute cycles'),
               ('d2.h3.n2.faces', D(2, 3, 2, 2), [-2, -1, 1, -1, 0, 0], 3000, ''), ('d3.h3.n2', D(3, 3, 2, 1), [2, 0, 1, -1, 0, 0], 3000, ''),
